@@ -709,6 +709,7 @@ class Canon:
             new = self._close(new)
             new.body = _hoist(_Blocks().block(new.body, "func"))
             sub.body = new.body
+        node = _FoldConst().visit(node)
         node = _IfExp().visit(node)
         node.body = _hoist(_Blocks().block(node.body, "func"))
         node = self._calls(f, node)
@@ -1280,6 +1281,27 @@ class _Small(ast.NodeTransformer):
     def _block(b):
         out = []
         for st in b:
+            if isinstance(st, ast.For):
+                u = _Small.unrolled(st)
+                if u is not None:
+                    out.extend(_Small._block(u))
+                    continue
+            if isinstance(st, ast.AugAssign) and isinstance(st.op, ast.Add) and isinstance(st.target, ast.Name) and isinstance(st.value, ast.ListComp) and len(st.value.generators) == 1 \
+                    and not st.value.generators[0].is_async and not any(isinstance(x, ast.Name) and x.id == st.target.id for x in ast.walk(st.value)):
+                # `x += [E for v in I if c]`  ->  `for v in I: if c: x.append(E)`
+                g = st.value.generators[0]
+                body = [ast.Expr(value=ast.Call(func=ast.Attribute(value=ast.Name(id=st.target.id, ctx=ast.Load()), attr="append", ctx=ast.Load()), args=[st.value.elt], keywords=[]))]
+                for c in reversed(g.ifs):
+                    body = [ast.If(test=c, body=body, orelse=[])]
+                tgt = copy.deepcopy(g.target)
+                for t in ast.walk(tgt):
+                    if isinstance(t, (ast.Name, ast.Tuple, ast.List)):
+                        t.ctx = ast.Store()
+                loop = ast.For(target=tgt, iter=g.iter, body=body, orelse=[], lineno=st.lineno)
+                ast.copy_location(loop, st)
+                ast.fix_missing_locations(loop)
+                out.append(loop)
+                continue
             if isinstance(st, ast.Assign) and len(st.targets) == 1 and isinstance(st.targets[0], ast.Tuple) and isinstance(st.value, ast.Tuple) \
                     and len(st.targets[0].elts) == len(st.value.elts) and all(isinstance(t, (ast.Name, ast.Attribute)) for t in st.targets[0].elts) \
                     and not ({txt(t) for t in st.targets[0].elts} & {txt(x) for v in st.value.elts for x in ast.walk(v) if isinstance(x, (ast.Name, ast.Attribute))}):
@@ -1327,6 +1349,44 @@ class _Small(ast.NodeTransformer):
         self.generic_visit(n)
         return _lift_attr(n)
 
+    @staticmethod
+    def unrolled(n):
+        """`for a, b in ((A1, B1), (A2, B2)): body` -> body[a:=A1, b:=B1]; body[a:=A2, b:=B2]  (a literal sequence of at most four rows of constants / plain names; the loop
+        variables and the names put in their place are not rebound in the body, no break / continue): a loop that only parameterises its body by side / axis is the
+        body written once per row"""
+        it, tg = n.iter, n.target
+        if not (isinstance(it, (ast.Tuple, ast.List)) and 1 <= len(it.elts) <= 4 and not n.orelse):
+            return None
+        names = [tg.id] if isinstance(tg, ast.Name) else ([x.id for x in tg.elts] if isinstance(tg, ast.Tuple) and all(isinstance(x, ast.Name) for x in tg.elts) else None)
+        if names is None:
+            return None
+        rows = []
+        for e in it.elts:
+            vals = [e] if isinstance(tg, ast.Name) else (list(e.elts) if isinstance(e, ast.Tuple) and len(e.elts) == len(names) else None)
+            if vals is None or not all(isinstance(v, (ast.Constant, ast.Name)) for v in vals):
+                return None
+            rows.append(vals)
+        stored = {x.id for b in n.body for x in ast.walk(b) if isinstance(x, ast.Name) and isinstance(x.ctx, (ast.Store, ast.Del))}
+        used = {v.id for r in rows for v in r if isinstance(v, ast.Name)}
+        if (stored & (set(names) | used)) or any(isinstance(x, (ast.Break, ast.Continue, ast.FunctionDef, ast.Lambda)) for b in n.body for x in ast.walk(b)):
+            return None
+        out = []
+        for k, r in enumerate(rows):
+            env = dict(zip(names, r))
+            # (locals of written-out helpers belong to one copy of the body)
+            ren = {x: "%s_u%d" % (x, k + 1) for x in stored if "__" in x} if k else {}
+            for b in n.body:
+                c = _SubstAll(env)
+                c._top = n
+                b2 = c.visit(copy.deepcopy(b))
+                if ren:
+                    b2 = _Rename(ren).visit(b2)
+                out.append(_FoldConst().visit(b2))
+        flat = []
+        for st in out:
+            flat.extend(st if isinstance(st, list) else [st])
+        return flat
+
     def visit_Call(self, n):
         self.generic_visit(n)
         # f(*(a, b)) -> f(a, b)
@@ -1348,6 +1408,29 @@ class _Small(ast.NodeTransformer):
                 and len(n.body.args) == 1 and isinstance(n.body.args[0], ast.Name) and n.body.args[0].id == a.args[0].arg and isinstance(n.body.func, (ast.Attribute, ast.Name)) \
                 and not any(isinstance(x, ast.Name) and x.id == a.args[0].arg for x in ast.walk(n.body.func)):
             return n.body.func
+        return n
+
+
+class _FoldConst(ast.NodeTransformer):
+    """comparisons of two literals decide themselves; a conditional on a literal is its branch (after a loop variable was replaced by the literal it stood for)"""
+
+    def visit_Compare(self, n):
+        self.generic_visit(n)
+        if len(n.ops) == 1 and isinstance(n.left, ast.Constant) and isinstance(n.comparators[0], ast.Constant) and isinstance(n.ops[0], (ast.Eq, ast.NotEq, ast.Is, ast.IsNot)):
+            same = n.left.value == n.comparators[0].value and type(n.left.value) is type(n.comparators[0].value)
+            return ast.copy_location(ast.Constant(value=same if isinstance(n.ops[0], (ast.Eq, ast.Is)) else not same), n)
+        return n
+
+    def visit_IfExp(self, n):
+        self.generic_visit(n)
+        if isinstance(n.test, ast.Constant) and isinstance(n.test.value, bool):
+            return n.body if n.test.value else n.orelse
+        return n
+
+    def visit_If(self, n):
+        self.generic_visit(n)
+        if isinstance(n.test, ast.Constant) and isinstance(n.test.value, bool):
+            return (n.body if n.test.value else n.orelse) or [ast.copy_location(ast.Pass(), n)]
         return n
 
 
